@@ -385,11 +385,13 @@ impl AssemblyCode {
                     {
                         remove_second = true;
                     }
-                    // Remove STA followed by LDA
+                    // Remove STA followed by LDA (unless a branch needs the flags of this LDA
+                    // and they don't already describe the accumulator)
                     if i1.mnemonic == AsmMnemonic::STA
                         && i2.mnemonic == AsmMnemonic::LDA
                         && i1.dasm_operand == i2.dasm_operand
                         && !i2.protected
+                        && !(followed_by_branch && flags != FlagsState::A)
                     {
                         remove_second = true;
                     }
